@@ -1772,6 +1772,10 @@ class Interp:
                 x, y = self.num_pair(a, b)
                 return x == y
             return False  # different kinds (e.g. number vs None/str/object) never compare equal
+        if hasattr(a, "sym_eq") and not isinstance(a, SObj):
+            return a.sym_eq(self, b)
+        if hasattr(b, "sym_eq") and not isinstance(b, SObj):
+            return b.sym_eq(self, a)
         if isinstance(a, SObj) or isinstance(b, SObj):
             if isinstance(a, SObj) and a.cls is not None:
                 f = _find_in_mro(a.cls, "__eq__")
